@@ -518,17 +518,41 @@ impl ASN1Type {
         Ok(self_replacement)
     }
 
-    /// Checks whether a reference to the type `name` occurs anywhere in `self`.
-    fn mentions(&self, name: &str) -> bool {
+    /// Checks whether a reference to the type `name` occurs anywhere in `self`, directly or
+    /// through other parameterized types (which are expanded in place as well).
+    fn mentions<'a>(
+        &'a self,
+        name: &str,
+        tlds: &'a BTreeMap<String, ToplevelDefinition>,
+        visited: &mut Vec<&'a str>,
+    ) -> bool {
         match self {
             ASN1Type::ElsewhereDeclaredType(DeclarationElsewhere { identifier, .. }) => {
                 identifier == name
+                    || (!visited.contains(&identifier.as_str())
+                        && match tlds.get(identifier) {
+                            Some(ToplevelDefinition::Type(ToplevelTypeDefinition {
+                                ty,
+                                parameterization: Some(_),
+                                ..
+                            })) => {
+                                visited.push(identifier);
+                                ty.mentions(name, tlds, visited)
+                            }
+                            _ => false,
+                        })
             }
-            ASN1Type::Choice(c) => c.options.iter().any(|o| o.ty.mentions(name)),
-            ASN1Type::Sequence(s) | ASN1Type::Set(s) => {
-                s.members.iter().any(|m| m.ty.mentions(name))
+            ASN1Type::Choice(c) => c
+                .options
+                .iter()
+                .any(|o| o.ty.mentions(name, tlds, visited)),
+            ASN1Type::Sequence(s) | ASN1Type::Set(s) => s
+                .members
+                .iter()
+                .any(|m| m.ty.mentions(name, tlds, visited)),
+            ASN1Type::SequenceOf(s) | ASN1Type::SetOf(s) => {
+                s.element_type.mentions(name, tlds, visited)
             }
-            ASN1Type::SequenceOf(s) | ASN1Type::SetOf(s) => s.element_type.mentions(name),
             _ => false,
         }
     }
@@ -545,7 +569,7 @@ impl ASN1Type {
                 parameterization: Some(Parameterization { parameters }),
                 ..
             })) => {
-                if ty.mentions(identifier) {
+                if ty.mentions(identifier, tlds, &mut Vec::new()) {
                     // Expanding such a template would never end
                     return Err(grammar_error!(
                         NotYetInplemented,
